@@ -12,6 +12,7 @@ NAMES = [
     ("H", "H"), ("H+", "H+"), ("H-", "H-"), ("H2", "H2"), ("H2+", "H2+"), ("e-", "e"), ("E", "e"), ("E-", "e"), ("He", "He"), ("He+", "He+"), ("He++", "He++"),
     ("#H", "#H"), ("#CO", "#CO"), ("CO", "CO"), ("C", "C"), ("O", "O"), ("oH2", "oH2"), ("pH2", "pH2"), ("oH2D+", "oH2D+"), ("pH2D+", "pH2D+"), ("N2D+", "N2D+"),
     ("Si", "Si"), ("Si+", "Si+"), ("Si++++", "Si++++"), ("GRAIN0", "G0"), ("GRAIN-", "G-"), ("H2*", "H2*"), ("c-C3H2", "c-C3H2"), ("l-C3H2", "l-C3H2"), ("C3H2", "C3H2"),
+    ("O-", "O-"), ("O--", "O--"), ("GRAIN--", "G--"), ("C--", "C--"),
     ("HD", "HD"), ("D", "D"), ("CH3OH", "CH3OH"), ("#CH3OH", "#CH3OH"), ("HCO+", "HCO+"), ("Cl", "Cl"), ("C-", "C-"), ("Na+", "Na+"), ("SiO", "SiO"), ("SO", "SO"),
 ]
 IDENT = re.compile(r"^[A-Za-z_][A-Za-z0-9_]*$")
@@ -23,7 +24,7 @@ def _sp(i):
 
 def pair_identity(v: List[int]) -> bool:
     """
-    pre: len(v) == 2 and all(0 <= x < 40 for x in v)
+    pre: len(v) == 2 and all(0 <= x < 44 for x in v)
     post: _ == True
     """
     i, j = prelude.concrete(v)
@@ -53,7 +54,7 @@ def electron_spellings_one_alias(v: List[int]) -> bool:
 
 def alias_is_identifier(v: List[int]) -> bool:
     """
-    pre: len(v) == 1 and all(0 <= x < 40 for x in v)
+    pre: len(v) == 1 and all(0 <= x < 44 for x in v)
     post: _ == True
     """
     (i,) = prelude.concrete(v)
